@@ -63,8 +63,15 @@ def run(chk):
         frag = rng.choice([0, 1, 7, 4095, 131071, 131072, 131073])
         if frag in (1, 7) and sum(len(d) for d in datas) > 30000:
             frag = 4095
+        # half of the histories change the source only in place (source_mut / drain_mut) and end with one more
+        # compress() on the exhausted source: that last frame holds no data
+        cmd = rng.choice(['renc_multi', 'renc_multi_mut'])
+        if cmd == 'renc_multi_mut':
+            datas = datas + [b'']
+            clines.append('%s %d %d %s' % (cmd, level, frag, ' '.join(hexs(d) for d in datas[:-1])))
+        else:
+            clines.append('%s %d %d %s' % (cmd, level, frag, ' '.join(hexs(d) for d in datas)))
         inputs.append((level, frag, datas))
-        clines.append('renc_multi %d %d %s' % (level, frag, ' '.join(hexs(d) for d in datas)))
     res = zh_par('codec', clines)
     ntr = 0
     for (level, frag, datas), r in zip(inputs, res):
@@ -81,6 +88,7 @@ def run(chk):
                     nbad += 1
                     chk.violation('frame %d of a reused compressor ends in %s, XXH64 of its input gives %s (checksum flag %d)' % (datas.index(d), fr[-4:].hex(), want.hex(), (fr[4] >> 2) & 1),
                                   {'component': 'compressor-trailer', 'level': level, 'frag': frag, 'inputs_hex': [hexs(x)[:100000] for x in datas],
-                                   'how': 'echo "renc_multi <level> <frag> <inputs...>" | _build/cargo/release/zh codec'})
+                                   'command': clines[inputs.index((level, frag, datas))][:300000],
+                                   'how': 'echo "<command>" | _build/cargo/release/zh codec'})
     chk.cov['components']['compressor-trailer'] = {'frames': ntr, 'compressors': len(inputs)}
     chk.cov['evaluations'] += ntr
